@@ -312,6 +312,7 @@ type tscope struct {
 	typ    types.Type         // Go type of the context (nil for hash scopes)
 	hash   map[string]hashVal // partial hash frame
 	inEach bool
+	bparam bool // block parameters (`as |x i|`): names only, not a context level
 }
 
 func (s *tscope) String() string {
@@ -361,6 +362,21 @@ func (tc *tchecker) problem(t *Tpl, line int, format string, args ...any) {
 func (tc *tchecker) walkProgram(t *Tpl, p *hast.Program, sc *tscope) {
 	if p == nil {
 		return
+	}
+	if len(p.BlockParams) > 0 {
+		// `as |x i|`: x names the context the block is rendered with, i the key/index; raymond
+		// looks block parameters up before the context stack and they are not a `../` level
+		hv := map[string]hashVal{}
+		for s := sc; s != nil; s = s.parent {
+			if s.typ != nil {
+				hv[p.BlockParams[0]] = hashVal{Type: s.typ}
+				break
+			}
+		}
+		if len(p.BlockParams) > 1 {
+			hv[p.BlockParams[1]] = hashVal{Type: types.Typ[types.Int]}
+		}
+		sc = &tscope{parent: sc, hash: hv, bparam: true}
 	}
 	for _, st := range p.Body {
 		switch n := st.(type) {
@@ -668,11 +684,47 @@ func (tc *tchecker) resolvePath(t *Tpl, p *hast.PathExpression, sc *tscope) reso
 	}
 	start := sc
 	for i := 0; i < p.Depth && start != nil; i++ {
-		start = start.parent
+		for start != nil && start.bparam {
+			start = start.parent
+		}
+		if start != nil {
+			start = start.parent
+		}
 	}
 	if start == nil {
 		tc.problem(t, p.Line, "path %s climbs above the root context", p.Original)
 		return resolved{}
+	}
+	// a path through a block parameter (`ctrl.Name` inside `#each Controllers as |ctrl|`) is
+	// rewritten to the equivalent depth-based path (`../Name`), so that every rule reads the
+	// same template whichever spelling it uses
+	if len(p.Parts) > 0 && !p.Data {
+		d := 0
+		for s := start; s != nil; s = s.parent {
+			if !s.bparam {
+				if s.hash != nil {
+					if _, shadow := s.hash[p.Parts[0]]; shadow {
+						break
+					}
+				}
+				d++
+				continue
+			}
+			if _, ok := s.hash[p.Parts[0]]; ok && s.hash[p.Parts[0]].Type != nil && s.parent != nil {
+				if _, isInt := s.hash[p.Parts[0]].Type.(*types.Basic); isInt {
+					break // the key/index parameter
+				}
+				p.Parts = p.Parts[1:]
+				p.Depth += d
+				rest := strings.Join(p.Parts, ".")
+				if rest == "" {
+					rest = "this"
+				}
+				p.Original = strings.Repeat("../", p.Depth) + rest
+				start = s.parent
+				break
+			}
+		}
 	}
 	if len(p.Parts) == 0 {
 		// this / .
@@ -680,7 +732,7 @@ func (tc *tchecker) resolvePath(t *Tpl, p *hast.PathExpression, sc *tscope) reso
 			if s.typ != nil {
 				return resolved{ok: true, typ: s.typ}
 			}
-			if s.hash != nil {
+			if s.hash != nil && !s.bparam {
 				return resolved{ok: true, dyn: true}
 			}
 		}
